@@ -34,6 +34,9 @@ def alphabet(dt, rich):
     A.append(L.tick(dt, "Q", [["TX", [["C", 0, 2.0], ["U", 1, "PERSIST"]], [1]]]))
     A.append(L.tick(dt, "Q", [["TX", [["C", 0, 2.0], L.P("PBn")], [1, 2]]]))
     A.append(L.tick(dt, "Q", [["TX", [["R", 0, 2.3], ["C", 1, None]], [1]]]))
+    # a request the order rejects (one is already in flight) inside a batch: it must not be sent with the batch
+    A.append(L.tick(dt, "Q", [["TX", [["R", 0, 2.3], ["U", 0, "PERSIST"]], []]]))
+    A.append(L.tick(dt, "Q", [["TX", [["C", 0, 2.0], ["U", 0, "PERSIST"], ["R", 0, 2.3]], []]]))
     # request issued together with the market event that completes the order
     A.append(L.tick(dt, "SUS", [["C", 0, None]]))
     A.append(L.tick(dt, "SUS", [["U", 0, "PERSIST"]]))
